@@ -1,0 +1,269 @@
+//go:build verif
+
+// Contracts for the verification machinery in /verif (comment-only; excluded from normal builds).
+// Property C19. Mode bv: every integer is an exact-width bit-vector (int/uint64 = 64 bits).
+//
+// Oracle: WebAssembly binary format, section 5.2.2 (uN / sN). A byte source is an SMT array `a` of bytes
+// indexed by 64-bit positions together with a base offset `o` (a slice: its backing array and the index of
+// element 0; an io.ByteReader: the ghost stream `rd` and the cursor at the time of the call).
+
+package leb128
+
+//@ spec b_at(a (Array (_ BitVec 64) (_ BitVec 8)), o uint64, k uint64) uint8 := a[o+k]
+//@ spec seg(a (Array (_ BitVec 64) (_ BitVec 8)), o uint64, k uint64) int64 := (int64(b_at(a, o, k)) & 0x7f) << (7 * k)
+
+// part64(a,o,n): the 7-bit groups of the first n bytes, least significant first (n <= 10).
+//@ spec part64(a (Array (_ BitVec 64) (_ BitVec 8)), o uint64, n uint64) int64 :=
+//@      ite(0 < n, seg(a, o, 0), 0) | ite(1 < n, seg(a, o, 1), 0) | ite(2 < n, seg(a, o, 2), 0) | ite(3 < n, seg(a, o, 3), 0) |
+//@      ite(4 < n, seg(a, o, 4), 0) | ite(5 < n, seg(a, o, 5), 0) | ite(6 < n, seg(a, o, 6), 0) | ite(7 < n, seg(a, o, 7), 0) |
+//@      ite(8 < n, seg(a, o, 8), 0) | ite(9 < n, seg(a, o, 9), 0)
+
+// term_at(a,o,m): the encoding occupies exactly m bytes: m-1 continuation bytes, then a byte below 0x80.
+//@ spec term_at(a (Array (_ BitVec 64) (_ BitVec 8)), o uint64, m uint64) bool :=
+//@      m >= 1 && b_at(a, o, m-1) < 0x80 && (forall k in 0..9 :: k+1 < m ==> b_at(a, o, k) >= 0x80)
+
+// sleb_val: sign extension of part64 from bit 7m-1 (m = 10: all 64 bits are given).
+//@ spec sleb_val(a (Array (_ BitVec 64) (_ BitVec 8)), o uint64, m uint64) int64 :=
+//@      ite(m >= 10, part64(a, o, m), (part64(a, o, m) << (64 - 7*m)) >> (64 - 7*m))
+
+// final-byte rules of section 5.2.2 for an encoding that uses the maximal number of bytes:
+// uN: n < 2^(N-7k); sN: n < 2^(N-7k-1) or n >= 2^7 - 2^(N-7k-1)   (k = index of the final byte)
+//@ spec lastok_u32(b uint8) bool := b < 16
+//@ spec lastok_s32(b uint8) bool := b < 8 || (120 <= b && b < 128)
+//@ spec lastok_s33(b uint8) bool := b < 16 || (112 <= b && b < 128)
+//@ spec lastok_s64(b uint8) bool := b == 0 || b == 127
+
+// acceptance by the grammar, n bytes available
+//@ spec acc_u32(a (Array (_ BitVec 64) (_ BitVec 8)), o uint64, n uint64) bool :=
+//@      exists m in 1..6 :: (m <= n && term_at(a, o, m) && (m == 5 ==> lastok_u32(b_at(a, o, 4))))
+//@ spec acc_s32(a (Array (_ BitVec 64) (_ BitVec 8)), o uint64, n uint64) bool :=
+//@      exists m in 1..6 :: (m <= n && term_at(a, o, m) && (m == 5 ==> lastok_s32(b_at(a, o, 4))))
+//@ spec acc_s33(a (Array (_ BitVec 64) (_ BitVec 8)), o uint64, n uint64) bool :=
+//@      exists m in 1..6 :: (m <= n && term_at(a, o, m) && (m == 5 ==> lastok_s33(b_at(a, o, 4))))
+//@ spec acc_s64(a (Array (_ BitVec 64) (_ BitVec 8)), o uint64, n uint64) bool :=
+//@      exists m in 1..11 :: (m <= n && term_at(a, o, m) && (m == 10 ==> lastok_s64(b_at(a, o, 9))))
+
+// canonical (minimal) encodings
+//@ spec uleb_len(v uint64) int :=
+//@      ite(v>>7 == 0, 1, ite(v>>14 == 0, 2, ite(v>>21 == 0, 3, ite(v>>28 == 0, 4, ite(v>>35 == 0, 5,
+//@      ite(v>>42 == 0, 6, ite(v>>49 == 0, 7, ite(v>>56 == 0, 8, ite(v>>63 == 0, 9, 10)))))))))
+//@ spec uleb_byte(v uint64, k uint64) uint8 :=
+//@      ite(v>>(7*(k+1)) == 0, uint8((v>>(7*k)) & 0x7f), uint8((v>>(7*k)) & 0x7f) | 0x80)
+//@ spec sfits(v int64, n uint64) bool := (v>>(7*n-1)) == 0 || (v>>(7*n-1)) == -1
+//@ spec sleb_len(v int64) int :=
+//@      ite(sfits(v, 1), 1, ite(sfits(v, 2), 2, ite(sfits(v, 3), 3, ite(sfits(v, 4), 4, ite(sfits(v, 5), 5,
+//@      ite(sfits(v, 6), 6, ite(sfits(v, 7), 7, ite(sfits(v, 8), 8, ite(sfits(v, 9), 9, 10)))))))))
+//@ spec sleb_byte(v int64, k uint64) uint8 :=
+//@      ite(sfits(v, k+1), uint8((v>>(7*k)) & 0x7f), uint8((v>>(7*k)) & 0x7f) | 0x80)
+
+// Package-level error values are created once by errors.New and never reassigned (assumed; io.EOF likewise).
+//@ axiom errOverflow32 != nil && errOverflow33 != nil && errOverflow64 != nil && io.EOF != nil
+
+// ---------------------------------------------------------------- encoders
+
+//@ func encodeUint64
+//@   requires dst == nil || len(dst) >= 10
+//@   loop 0 unroll 10
+//@   ensures[len]   result == uleb_len(v)
+//@   ensures[bytes] dst != nil ==> (forall k in 0..10 :: k < result ==> dst[k] == uleb_byte(v, k))
+//@   modifies dst[0:10]
+//@   safe
+//@   property C19
+
+//@ func encodeInt64
+//@   requires dst == nil || len(dst) >= 10
+//@   loop 0 unroll 10
+//@   ensures[len]   result == sleb_len(v)
+//@   ensures[bytes] dst != nil ==> (forall k in 0..10 :: k < result ==> dst[k] == sleb_byte(v, k))
+//@   modifies dst[0:10]
+//@   safe
+//@   property C19
+
+//@ func EncodeUint32
+//@   ensures[len]   len(result) == uleb_len(uint64(v)) && len(result) <= 5
+//@   ensures[bytes] forall k in 0..5 :: k < len(result) ==> result[k] == uleb_byte(uint64(v), k)
+//@   safe
+//@   property C19
+
+//@ func EncodeUint64
+//@   ensures[len]   len(buf) == uleb_len(v)
+//@   ensures[bytes] forall k in 0..10 :: k < len(buf) ==> buf[k] == uleb_byte(v, k)
+//@   safe
+//@   property C19
+
+//@ func EncodeInt32
+//@   ensures[len]   len(result) == sleb_len(int64(v)) && len(result) <= 5
+//@   ensures[bytes] forall k in 0..5 :: k < len(result) ==> result[k] == sleb_byte(int64(v), k)
+//@   safe
+//@   property C19
+
+//@ func EncodeInt64
+//@   ensures[len]   len(result) == sleb_len(v)
+//@   ensures[bytes] forall k in 0..10 :: k < len(result) ==> result[k] == sleb_byte(v, k)
+//@   safe
+//@   property C19
+
+// ---------------------------------------------------------------- decoders over byte slices
+
+//@ func (byteSliceNext).next
+//@   transparent
+
+//@ func decodeUint32
+//@   transparent
+//@   loop 0 unroll 5
+
+//@ func LoadUint32
+//@   ensures[count]    err == nil ==> 1 <= bytesRead && bytesRead <= 5 && bytesRead <= uint64(len(buf))
+//@   ensures[term]     err == nil ==> term_at(arr(buf), off(buf), bytesRead)
+//@   ensures[value]    err == nil ==> uint64(ret) == uint64(part64(arr(buf), off(buf), bytesRead))
+//@   ensures[lastbyte] err == nil && bytesRead == 5 ==> lastok_u32(buf[4])
+//@   ensures[onerror]  err != nil ==> ret == 0 && bytesRead == 0
+//@   ensures[accepts]  acc_u32(arr(buf), off(buf), uint64(len(buf))) ==> err == nil
+//@   safe
+//@   property C19
+
+//@ func decodeInt32
+//@   transparent
+//@   loop 0 invariant shift == 7 * int(bytesRead)
+//@   loop 0 invariant typeis(buf, byteSliceNext) ==> bytesRead <= uint64(len(buf.(byteSliceNext)))
+//@   loop 0 invariant typeis(buf, byteSliceNext) ==>
+//@        (forall k in 0..5 :: k < bytesRead ==> b_at(arr(buf.(byteSliceNext)), off(buf.(byteSliceNext)), k) >= 0x80)
+//@   loop 0 invariant typeis(buf, byteSliceNext) ==>
+//@        (bytesRead <= 5 ==> ret == int32(part64(arr(buf.(byteSliceNext)), off(buf.(byteSliceNext)), bytesRead)))
+//@   loop 0 invariant typeis(buf, byteReaderNext) ==> rd_pos == old(rd_pos) + bytesRead && rd_pos <= rd_len
+//@   loop 0 invariant typeis(buf, byteReaderNext) ==> (forall k in 0..5 :: k < bytesRead ==> b_at(rd, old(rd_pos), k) >= 0x80)
+//@   loop 0 invariant typeis(buf, byteReaderNext) ==> (bytesRead <= 5 ==> ret == int32(part64(rd, old(rd_pos), bytesRead)))
+
+//@ func LoadInt32
+//@   ensures[count]    err == nil ==> 1 <= bytesRead && bytesRead <= 5 && bytesRead <= uint64(len(buf))
+//@   ensures[term]     err == nil ==> term_at(arr(buf), off(buf), bytesRead)
+//@   ensures[value]    err == nil ==> ret == int32(sleb_val(arr(buf), off(buf), bytesRead))
+//@   ensures[lastbyte] err == nil && bytesRead == 5 ==> lastok_s32(buf[4])
+//@   ensures[onerror]  err != nil ==> ret == 0 && bytesRead == 0
+//@   ensures[accepts]  acc_s32(arr(buf), off(buf), uint64(len(buf))) ==> err == nil
+//@   safe
+//@   property C19
+
+//@ func decodeInt64
+//@   transparent
+//@   loop 0 invariant shift == 7 * int(bytesRead)
+//@   loop 0 invariant typeis(buf, byteSliceNext) ==> bytesRead <= uint64(len(buf.(byteSliceNext)))
+//@   loop 0 invariant typeis(buf, byteSliceNext) ==>
+//@        (forall k in 0..10 :: k < bytesRead ==> b_at(arr(buf.(byteSliceNext)), off(buf.(byteSliceNext)), k) >= 0x80)
+//@   loop 0 invariant typeis(buf, byteSliceNext) ==>
+//@        (bytesRead <= 10 ==> ret == part64(arr(buf.(byteSliceNext)), off(buf.(byteSliceNext)), bytesRead))
+//@   loop 0 invariant typeis(buf, byteReaderNext) ==> rd_pos == old(rd_pos) + bytesRead && rd_pos <= rd_len
+//@   loop 0 invariant typeis(buf, byteReaderNext) ==> (forall k in 0..10 :: k < bytesRead ==> b_at(rd, old(rd_pos), k) >= 0x80)
+//@   loop 0 invariant typeis(buf, byteReaderNext) ==> (bytesRead <= 10 ==> ret == part64(rd, old(rd_pos), bytesRead))
+
+//@ func LoadInt64
+//@   ensures[count]    err == nil ==> 1 <= bytesRead && bytesRead <= 10 && bytesRead <= uint64(len(buf))
+//@   ensures[term]     err == nil ==> term_at(arr(buf), off(buf), bytesRead)
+//@   ensures[value]    err == nil ==> ret == sleb_val(arr(buf), off(buf), bytesRead)
+//@   ensures[lastbyte] err == nil && bytesRead == 10 ==> lastok_s64(buf[9])
+//@   ensures[onerror]  err != nil ==> ret == 0 && bytesRead == 0
+//@   ensures[accepts]  acc_s64(arr(buf), off(buf), uint64(len(buf))) ==> err == nil
+//@   safe
+//@   property C19
+
+// ---------------------------------------------------------------- decoders over io.ByteReader
+//
+// ASSUMED contract of the reader: it is a cursor over a fixed byte sequence `rd` of length rd_len and
+// fails only at its end (ghost state rd, rd_pos, rd_len).
+
+//@ ghost rd (Array (_ BitVec 64) (_ BitVec 8))
+//@ ghost rd_pos uint64
+//@ ghost rd_len uint64
+
+//@ iface io.ByteReader.ReadByte
+//@   ensures old(rd_pos) < rd_len ==> result1 == nil && result0 == rd[old(rd_pos)] && rd_pos == old(rd_pos) + 1
+//@   ensures old(rd_pos) >= rd_len ==> result1 != nil && rd_pos == old(rd_pos)
+//@   modifies rd_pos
+
+//@ func (byteReaderNext).next
+//@   transparent
+
+//@ func DecodeUint32
+//@   requires rd_pos <= rd_len && rd_len <= (1 << 62)
+//@   modifies rd_pos
+//@   ensures[count]    err == nil ==> 1 <= bytesRead && bytesRead <= 5 && rd_pos == old(rd_pos) + bytesRead && rd_pos <= rd_len
+//@   ensures[term]     err == nil ==> term_at(rd, old(rd_pos), bytesRead)
+//@   ensures[value]    err == nil ==> uint64(ret) == uint64(part64(rd, old(rd_pos), bytesRead))
+//@   ensures[lastbyte] err == nil && bytesRead == 5 ==> lastok_u32(b_at(rd, old(rd_pos), 4))
+//@   ensures[onerror]  err != nil ==> ret == 0 && bytesRead == 0
+//@   ensures[accepts]  acc_u32(rd, old(rd_pos), rd_len - old(rd_pos)) ==> err == nil
+//@   property C19
+
+//@ func DecodeInt32
+//@   requires rd_pos <= rd_len && rd_len <= (1 << 62)
+//@   modifies rd_pos
+//@   ensures[count]    err == nil ==> 1 <= bytesRead && bytesRead <= 5 && rd_pos == old(rd_pos) + bytesRead && rd_pos <= rd_len
+//@   ensures[term]     err == nil ==> term_at(rd, old(rd_pos), bytesRead)
+//@   ensures[value]    err == nil ==> ret == int32(sleb_val(rd, old(rd_pos), bytesRead))
+//@   ensures[lastbyte] err == nil && bytesRead == 5 ==> lastok_s32(b_at(rd, old(rd_pos), 4))
+//@   ensures[onerror]  err != nil ==> ret == 0 && bytesRead == 0
+//@   ensures[accepts]  acc_s32(rd, old(rd_pos), rd_len - old(rd_pos)) ==> err == nil
+//@   property C19
+
+//@ func DecodeInt64
+//@   requires rd_pos <= rd_len && rd_len <= (1 << 62)
+//@   modifies rd_pos
+//@   ensures[count]    err == nil ==> 1 <= bytesRead && bytesRead <= 10 && rd_pos == old(rd_pos) + bytesRead && rd_pos <= rd_len
+//@   ensures[term]     err == nil ==> term_at(rd, old(rd_pos), bytesRead)
+//@   ensures[value]    err == nil ==> ret == sleb_val(rd, old(rd_pos), bytesRead)
+//@   ensures[lastbyte] err == nil && bytesRead == 10 ==> lastok_s64(b_at(rd, old(rd_pos), 9))
+//@   ensures[onerror]  err != nil ==> ret == 0 && bytesRead == 0
+//@   ensures[accepts]  acc_s64(rd, old(rd_pos), rd_len - old(rd_pos)) ==> err == nil
+//@   property C19
+
+// the 33-bit signed codec (block types): value = sign extension from bit 32
+//@ func DecodeInt33AsInt64
+//@   requires rd_pos <= rd_len && rd_len <= (1 << 62)
+//@   modifies rd_pos
+//@   loop 0 unroll 5
+//@   ensures[count]    err == nil ==> 1 <= bytesRead && bytesRead <= 5 && rd_pos == old(rd_pos) + bytesRead && rd_pos <= rd_len
+//@   ensures[term]     err == nil ==> term_at(rd, old(rd_pos), bytesRead)
+//@   ensures[value]    err == nil ==> ret == (sleb_val(rd, old(rd_pos), bytesRead) << 31) >> 31
+//@   ensures[lastbyte] err == nil && bytesRead == 5 ==> lastok_s33(b_at(rd, old(rd_pos), 4))
+//@   ensures[onerror]  err != nil ==> ret == 0 && bytesRead == 0
+//@   ensures[accepts]  acc_s33(rd, old(rd_pos), rd_len - old(rd_pos)) ==> err == nil
+//@   property C19
+
+//@ lemma roundtrip_s33
+//@   forall v int64, r io.ByteReader
+//@   assume -(1 << 32) <= v && v < (1 << 32)
+//@   assume rd_pos <= rd_len && rd_len <= (1 << 62)
+//@   let b := EncodeInt64(v)
+//@   assume uint64(len(b)) <= rd_len - rd_pos
+//@   assume forall k in 0..10 :: k < len(b) ==> rd[rd_pos + k] == b[k]
+//@   let p0 := rd_pos
+//@   let x, n, e := DecodeInt33AsInt64(r)
+//@   assert e == nil
+//@   assert x == v && n == uint64(len(b)) && rd_pos == p0 + n
+//@   property C19
+
+// ---------------------------------------------------------------- round trips (over the contracts only)
+
+//@ lemma roundtrip_u32
+//@   forall v uint32
+//@   let b := EncodeUint32(v)
+//@   let r, n, e := LoadUint32(b)
+//@   assert e == nil
+//@   assert r == v && n == uint64(len(b))
+//@   property C19
+
+//@ lemma roundtrip_s32
+//@   forall v int32
+//@   let b := EncodeInt32(v)
+//@   let r, n, e := LoadInt32(b)
+//@   assert e == nil
+//@   assert r == v && n == uint64(len(b))
+//@   property C19
+
+//@ lemma roundtrip_s64
+//@   forall v int64
+//@   let b := EncodeInt64(v)
+//@   let r, n, e := LoadInt64(b)
+//@   assert e == nil
+//@   assert r == v && n == uint64(len(b))
+//@   property C19
